@@ -675,7 +675,7 @@ static const char *ORD[] = {"lifo", "fifo", "stride7"};
 
 static bool boundary(size_t n, size_t cap)
 {
-    static const size_t B[] = {0, 1, 254, 255, 256, 257, 65535, 65536, 65537};
+    static const size_t B[] = {0, 1, 254, 255, 256, 257, 32766, 32767, 32768, 32769, 65534, 65535, 65536, 65537};
     for (size_t b : B)
         if (n == b)
             return true;
@@ -852,6 +852,105 @@ template <class T, size_t N> static void large_static(int ord, const char *tn)
     L.cap = N;
     L.data = sizeof(T);
     L.run(ord);
+}
+
+// ---------------------------------------------------------------- one long history on ONE pool object
+// >= 70000 (thorough 300000) allocate / free operations on the same pool at varying fill levels: state hidden in the
+// object that only misbehaves after 2^8 / 2^16 operations (a generation counter, a statistics field used in a test).
+// The counters are compared after every operation, the complete observation every 61 operations and at empty / full
+// (capacity 70000: every 257 / 4099 operations).
+static void long_history(Large &L, const char *what)
+{
+    long nops = mc::thorough() ? 300000 : 70000;
+    mc::describe("%s, %zu cells: one history of %ld allocate/free operations", what, L.cap, nops);
+    g_reg = &L.reg;
+    L.live_tag.assign(L.cap, -1);
+    Flavour *f = L.f;
+    vector<int> livecells;
+    static const unsigned PA[] = {75, 25, 50, 95, 10, 60};
+    mc::crash_context("C10.%s.long_history", L.flav.c_str());
+    for (long i = 0; i < nops && !L.failed; i++)
+    {
+        unsigned r = (unsigned)(i * 2654435761u) >> 12;
+        unsigned r2 = (unsigned)((i + 17) * 40503u) >> 3;
+        bool alloc = r % 100 < PA[(i / 1009) % 6] || livecells.empty();
+        if (alloc)
+        {
+            unsigned tag = (unsigned)(i % 1000003);
+            long c0 = L.reg.ctors;
+            char *q = (char *)f->get(tag);
+            if (L.nlive == L.cap)
+            {
+                if (q)
+                    L.fail("long_history", "overlap", mc::fmt("operation %ld: request on the exhausted pool returned zone%+ld instead of null", i, (long)(q - f->zone)));
+                else if (L.reg.ctors != c0)
+                    L.fail("long_history", "lifetime", "create() returned null but ran a constructor");
+            }
+            else if (!q)
+                L.fail("long_history", "null_before_capacity", mc::fmt("operation %ld: request returned null", i));
+            else if (q < f->zone || q + f->esz > f->zone + f->esz * L.cap || (q - f->zone) % f->esz || (uintptr_t)q % f->align)
+                L.fail("long_history", "outside_zone", mc::fmt("operation %ld: request returned zone%+ld", i, (long)(q - f->zone)));
+            else
+            {
+                int cell = (int)((q - f->zone) / f->esz);
+                if (L.live_tag[cell] >= 0)
+                    L.fail("long_history", "overlap", mc::fmt("operation %ld: request returned cell %d which is live", i, cell));
+                else
+                {
+                    if (f->typed() ? L.reg.ctors != c0 + 1 : false)
+                        L.fail("long_history", "lifetime", mc::fmt("create() ran %ld constructors", L.reg.ctors - c0));
+                    if (!f->typed())
+                        for (size_t j = 0; j < L.data; j++)
+                            q[j] = (char)pat(tag, (unsigned)j);
+                    L.live_tag[cell] = (int)tag;
+                    livecells.push_back(cell);
+                    L.nlive++;
+                }
+            }
+        }
+        else
+        {
+            size_t k = r2 % livecells.size();
+            int cell = livecells[k];
+            livecells[k] = livecells.back();
+            livecells.pop_back();
+            if (!L.contents("long_history", cell))
+                break;
+            long d0 = L.reg.dtors;
+            L.live_tag[cell] = -1;
+            L.nlive--;
+            f->put(f->zone + (size_t)cell * f->esz);
+            if (f->typed() && L.reg.dtors != d0 + 1)
+                L.fail("long_history", "lifetime", mc::fmt("destroy() ran %ld destructors", L.reg.dtors - d0));
+        }
+        if (L.failed)
+            break;
+        // (every operation already checks the block itself; walking the free list costs O(free cells))
+        long every_full = L.cap > 1000 ? 4099 : 61, every_count = L.cap > 1000 ? 257 : 1;
+        if (i % every_full == 0 || L.nlive == 0 || L.nlive == L.cap || !L.reg.errs.empty())
+            L.observe("long_history");
+        else if (i % every_count == 0)
+        {
+            string w = f->counts(L.nlive);
+            if (!w.empty())
+                L.fail("long_history", w.substr(0, w.find(':')), mc::fmt("operation %ld: ", i) + w);
+        }
+    }
+    mc::more_cases((uint64_t)nops - 1, (uint64_t)nops - 1);
+    mc::nontrivial();
+    mc::outcome(mc::fmt("%s %zu %s", L.flav.c_str(), L.cap, L.failed ? "violation" : "ok"));
+    g_reg = nullptr;
+}
+template <class T, size_t N> static void long_static(const char *tn)
+{
+    Large L;
+    L.flav = "static_object_pool";
+    g_reg = &L.reg;
+    SFlavour<T, N> fl;
+    L.f = &fl;
+    L.cap = N;
+    L.data = sizeof(T);
+    long_history(L, mc::fmt("static_object_pool<%s,%zu>", tn, N).c_str());
 }
 
 // ---------------------------------------------------------------- C pool fed from several zones
@@ -1799,5 +1898,70 @@ MC_INIT
     });
     mc::add_bfs("static_object_pool_nested_pair",
                 [] { return std::unique_ptr<mc::Model>(new PairModel("static_object_pool_nested", new NestedModel, new NestedModel)); });
+    // ---- capacities around 2^15 and 2^16 for every flavour (element size 8): a counter or a walk limit of 15/16 bits
+    mc::add_check("pools_huge", [] {
+        static const size_t CH[] = {32767, 32768, 32769, 65535, 65536, 65537};
+        int c = mc::choose(2 * 6 * 3);
+        int ord = c % 3, fl = c / 18;
+        size_t cap = CH[c / 3 % 6];
+        mc::describe("%s: %zu cells of 8 bytes, free order %s", fl ? "igris::pool" : "pool_head", cap, ORD[ord]);
+        Large L;
+        L.flav = fl ? "cxx_pool" : "c_pool";
+        std::unique_ptr<Flavour> f(fl ? (Flavour *)new XFlavour(8, cap) : (Flavour *)new CFlavour(8, cap));
+        L.f = f.get();
+        L.cap = cap;
+        L.data = 8;
+        L.run(ord);
+    });
+    mc::add_check("static_object_pool_huge", [] {
+        int c = mc::choose(6 * 3);
+        int ord = c % 3;
+        typedef Tracked<8, 8> T8;
+        switch (c / 3)
+        {
+        case 0:
+            large_static<T8, 32767>(ord, "T(size 8)");
+            break;
+        case 1:
+            large_static<T8, 32768>(ord, "T(size 8)");
+            break;
+        case 2:
+            large_static<T8, 32769>(ord, "T(size 8)");
+            break;
+        case 3:
+            large_static<T8, 65535>(ord, "T(size 8)");
+            break;
+        case 4:
+            large_static<T8, 65536>(ord, "T(size 8)");
+            break;
+        default:
+            large_static<T8, 65537>(ord, "T(size 8)");
+            break;
+        }
+    });
+    // ---- one long history per flavour and capacity (see long_history)
+    mc::add_check("pools_long_history", [] {
+        int c = mc::choose(3 * 3);
+        int fl = c / 3, k = c % 3;
+        static const size_t CL[] = {4, 300, 70000};
+        typedef Tracked<8, 8> T8;
+        if (fl == 2)
+        {
+            if (k == 0)
+                long_static<T8, 4>("T(size 8)");
+            else if (k == 1)
+                long_static<T8, 300>("T(size 8)");
+            else
+                long_static<T8, 70000>("T(size 8)");
+            return;
+        }
+        Large L;
+        L.flav = fl ? "cxx_pool" : "c_pool";
+        std::unique_ptr<Flavour> f(fl ? (Flavour *)new XFlavour(k == 1 ? 12 : 8, CL[k]) : (Flavour *)new CFlavour(k == 1 ? 12 : 8, CL[k]));
+        L.f = f.get();
+        L.cap = CL[k];
+        L.data = f->esz;
+        long_history(L, fl ? "igris::pool" : "pool_head");
+    });
 }
 MC_MAIN
